@@ -28,6 +28,8 @@ from icalendar.cal import (Calendar, Event, Todo, Journal, FreeBusy, Timezone, T
                            Component, component_factory, types_factory)
 from icalendar.timezone import tzp
 
+from mc.userkinds import Stamp, Day  # noqa: E402
+
 UTC = timezone.utc
 PLAIN_CLASSES = {k.upper(): v for k, v in component_factory.items()}  # the library's own classes, whatever is registered later
 ZA, ZB = "Europe/Berlin", "America/New_York"
@@ -114,7 +116,9 @@ def values_for(name):
                 ("early-date", lambda: date(33, 4, 3)), ("late-utc", lambda: datetime(9999, 12, 31, 23, 59, 59, tzinfo=UTC)),
                 # a fraction of a second: the text has one-second resolution, the value keeps its second (no rounding up)
                 ("utc-fraction", lambda: datetime(2024, 3, 1, 8, 59, 59, 999999, tzinfo=UTC)), ("naive-fraction", lambda: datetime(2024, 12, 31, 23, 59, 59, 600000)),
-                ("zoned-fraction", lambda: zoned(ZA, 2024, 3, 1, 8, 59, 59).replace(microsecond=500001))]
+                ("zoned-fraction", lambda: zoned(ZA, 2024, 3, 1, 8, 59, 59).replace(microsecond=500001)),
+                # instances of user subclasses of datetime / date (mc/userkinds.py)
+                ("utc-subclass", lambda: Stamp(2024, 3, 1, 8, 30, tzinfo=UTC)), ("naive-subclass", lambda: Stamp(2024, 3, 1, 8, 30)), ("date-subclass", lambda: Day(2024, 3, 1))]
     if typ == "DATE-TIME" and is_list:
         v = [("dates", lambda: [date(2024, 3, 1), date(2024, 3, 2)]), ("zoned", lambda: [zoned(ZA, 2024, 3, 1, 8), zoned(ZA, 2024, 3, 2, 8)]),
              ("utc", lambda: [datetime(2024, 3, 1, 8, tzinfo=UTC)]), ("single-naive", lambda: datetime(2024, 3, 1, 8)),
